@@ -80,6 +80,7 @@ inline bool is_same_type(const TwoArgBasic &a, const Basic &b) { return a.get_ty
 inline bool is_same_type(const OneArgFunction &a, const Basic &b) { return a.get_type_code() == b.get_type_code(); }
 inline const TwoArgBasic &as_TwoArgBasic(const Basic &b) { return *b.ta_; }
 inline const OneArgFunction &as_OneArgFunction(const Basic &b) { return *b.oa_; }
+#include "keyless.inc"       /* struct RCPBasicKeyLess (basic.h), verbatim */
 #include "comp.inc"
 /* virtual dispatch (vtable not modelled): abstract children answer from their ghost contract data */
 hash_t Basic::__hash__() const
@@ -172,5 +173,25 @@ extern "C" void h_comp_c02(void)
   OBL("C02." CLSNAME ".cmp.transitive", !(xy <= 0 && yz <= 0) || xz <= 0);
   OBL("C02." CLSNAME ".cmp.transitive_strict", !(xy < 0 && yz <= 0) || xz < 0);
   REACHABLE("h_comp_c02");
+}
+#endif
+
+#if CLS == 8
+/* RCPBasicKeyLess (the comparator of every set_basic / map_basic_*): hash order, then eq, then __cmp__ == -1.
+   Given the children's contract (eq => equal hash; __cmp__ a total order consistent with eq) it is a strict weak order whose
+   equivalence is eq — this is where C01 is used as a lemma for C02.  Distinct objects of equal rank and hash collisions included. */
+extern "C" void h_keyless(void)
+{
+  any_children();
+  RCPBasic x = pick(), y = pick(), z = pick();
+  verif_may_throw = false;
+  RCPBasicKeyLess less;
+  bool xy = less(x, y), yx = less(y, x), yz = less(y, z), xz = less(x, z), zy = less(z, y);
+  OBL("C02.RCPBasicKeyLess.irreflexive_on_equal_expressions", !eq(*x, *y) || (!xy && !yx));
+  OBL("C02.RCPBasicKeyLess.asymmetric", !(xy && yx));
+  OBL("C02.RCPBasicKeyLess.transitive", !(xy && yz) || xz);
+  OBL("C02.RCPBasicKeyLess.incomparable_iff_eq", (!xy && !yx) == eq(*x, *y));
+  OBL("C02.RCPBasicKeyLess.incomparability_is_transitive", !((!xy && !yx) && (!yz && !zy)) || (!xz && !less(z, x)));
+  REACHABLE("h_keyless");
 }
 #endif
